@@ -568,7 +568,72 @@ class Run:
             return []
         return json.load(open(p)).get("findings", [])
 
+    # ------------------------------------------------------------------ replay of one witness
+    @staticmethod
+    def replay_requests(case):
+        """request lines for `hbsmon replay-worker` from the case document of a witness file"""
+        def hx(v):
+            if v is None or v == "":
+                return "-"
+            if not isinstance(v, str) or ".." in v:
+                return None  # abbreviated in the witness: cannot be re-executed from the file alone
+            return v
+        reqs = []
+        if not isinstance(case, dict):
+            return reqs
+        h = case.get("hash")
+        if h and "signature" in case and "public_key" in case:
+            m, s_, k = hx(case.get("message")), hx(case.get("signature")), hx(case.get("public_key"))
+            if None not in (m, s_, k):
+                reqs.append(f"verify {h} {m} {s_} {k}")
+        if h and "private_key" in case and "heights" not in case:
+            b, m, a = hx(case.get("private_key")), hx(case.get("message")), case.get("aux")
+            a = "none" if a in (None, "", "None") or (isinstance(a, str) and not all(c in "0123456789abcdef" for c in a)) else a
+            if None not in (b, m):
+                reqs.append(f"sign {h} {b} {m} {a}")
+        if h and "levels" in case and "seed" in case and "counter" in case:
+            m, sd = hx(case.get("message")), hx(case.get("seed"))
+            if None not in (m, sd) and "/" in str(case["levels"]):
+                reqs.append(f"state {h} {case['levels']} {sd} {case['counter']} {m}")
+        if h and "digest" in case and "w" in case:
+            reqs.append(f"digits {h} {case['w']} {case['digest']}")
+        if h and "heights" in case and "private_key" in case:
+            reqs.append(f"arith {h} {case['private_key']}")
+        return reqs
+
+    def execute_replay(self):
+        try:
+            wit = json.load(open(self.replay))
+        except Exception as e:
+            raise Inconclusive(f"cannot read witness file {self.replay}: {e}")
+        reqs = self.replay_requests(wit.get("case"))
+        print(f"replay of {self.replay}: property={wit.get('property')} key={wit.get('key')}")
+        print(f"  recorded: {str(wit.get('what'))[:400]}")
+        if not reqs:
+            print("  the witness does not carry a self-contained case (build-configuration, schedule or abbreviated input): re-running the whole check with the recorded seed and tier instead")
+            self.seed = int(wit.get("seed", self.seed)); self.tier = wit.get("tier", self.tier)
+            self.env.update({"VERIF_SEED": str(self.seed), "VERIF_TIER": self.tier})
+            self.replay = None
+            return self.execute()
+        hbsmon = self.build_hbsmon()
+        p = subprocess.run([hbsmon, "replay-worker"], input=("\n".join(reqs) + "\n").encode(), stdout=subprocess.PIPE, stderr=subprocess.STDOUT, cwd=self.root, env=dict(os.environ, **self.env), timeout=3600)
+        text = p.stdout.decode("utf-8", "replace")
+        print(text)
+        if p.returncode != 0:
+            raise Inconclusive(f"replay worker failed (exit {p.returncode})")
+        known = {f["key"] for f in self.known_findings() if f.get("status") == "known" and f.get("property") == self.prop}
+        if "DEVIATION" in text:
+            if wit.get("key") in known:
+                print(f"KNOWN-FINDING: property={self.prop} {wit.get('key')} (replayed)")
+                return 0
+            print(f"VIOLATION property={self.prop} replay={self.replay}")
+            return 1
+        print(f"OK property={self.prop} replay: the library agrees with the oracle on this case now")
+        return 0
+
     def execute(self):
+        if self.replay:
+            return self.execute_replay()
         spec = PROPS[self.prop]
         for st in spec["stages"] + (spec.get("thorough_extra", []) if self.tier == "thorough" else []):
             fn = getattr(self, "stage_" + st)
